@@ -589,6 +589,7 @@ pub fn run(ctx: &mut Ctx) {
     ctx.run_suite(&GateSuite { h2: false, h3: false });
     ctx.run_suite(&GateSuite { h2: true, h3: false });
     ctx.run_suite(&GateSuite { h2: true, h3: true });
+    ctx.run_suite(&super::c01pipe::PipelinedSuite);
     ctx.assume("don't-care (either outcome accepted): non-canonical base64 of a valid pair, a wrong header on an SNI-authenticated connection, duplicate headers of mixed validity, everything when no authenticator is configured");
     ctx.assume("HTTP/3 runs in real time against the real QUIC listener with 1.5 s to answer; a request without a response in that time counts as unanswered");
     ctx.assume("header values the h2 client library refuses to send (e.g. control bytes) are skipped on HTTP/2");
@@ -599,6 +600,7 @@ pub fn replay(ctx: &mut Ctx, suite: &str, case: &Value) -> bool {
         "gate-h1" => ctx.replay_suite(&GateSuite { h2: false, h3: false }, case),
         "gate-h2-sequences" => ctx.replay_suite(&GateSuite { h2: true, h3: false }, case),
         "gate-h3-sequences" => ctx.replay_suite(&GateSuite { h2: true, h3: true }, case),
+        "gate-h1-pipelined" => ctx.replay_suite(&super::c01pipe::PipelinedSuite, case),
         _ => false,
     }
 }
